@@ -561,6 +561,9 @@ func c12Msg(c *ctx, cs c12Case) {
 }
 
 func c12Eval(c *ctx, cs c12Case) {
+	if c.WantSample() && (cs.Op == "structure" || rng.HashStr(cs.Op+cs.Kind+cs.GoT+cs.Val+cs.Str)%1777 == 0) {
+		c.Sample(cs)
+	}
 	switch cs.Op {
 	case "num", "fill":
 		c12Num(c, cs)
